@@ -218,7 +218,7 @@ partial def diffLoop (h : IO.FS.Stream) (a : DAcc) : IO DAcc := do
         IO.println s!"DIFFBAD {c} op#{a.ops} {op} {" ".intercalate args}: implementation {out} # {shape}; model {mout} # {mshape}"
         if isQueue && mout != out then
           -- the model is proved to answer as the FIFO / priority specification does (Proofs/Fifo, Proofs/PQRefine)
-          IO.println s!"DIFFVIOL {c} op#{a.ops} {op} {" ".intercalate args} answered {out}; the queue specification (what was enqueued, in order, minus what was dequeued or purged) answers {mout}"
+          IO.println s!"DIFFVIOL {c} op#{a.ops} {op} {" ".intercalate args} answered {out}; the queue specification ({match a0st with | .pq _ => "what was enqueued, smallest priority first and in submission order among equal priorities" | _ => "what was enqueued, in order"}, minus what was dequeued or purged) answers {mout}"
         -- is the implementation's answer itself against the specification? (first disagreement of a case only:
         -- afterwards model and implementation are in different states)
         match a0st, op with
